@@ -18,7 +18,7 @@ FUNCTIONS = ['bfg9000.environment.EnvVarDict.__init__', '__setitem__', '__delite
              'popitem', 'setdefault', 'update', 'clear', 'reset', 'changes', 'to_json', 'from_json',
              'bfg9000.environment.Toolchain.to_json/from_json', 'BasePath.to_json/from_json',
              'bfg9000.environment.Environment.load (version gate, upgrade chain 4..17, object construction)', 'Environment.reload',
-             'bfg9000.build.load_toolchain']
+             'bfg9000.build.load_toolchain', 'bfg9000.builtins.toolchain.install_dirs']
 OUTSIDE = ['histories longer than the bound', 'symbolic variable *names*', 'snapshot versions below 4 (no record of their format)', 'Environment.save of the complete object (tool detection)', 'ambient environment of later invocations']
 STUBS = ['json.dump/json.load -> structural copy (_jsonish)', 'open()/json.load in environment.py -> in-memory '
          'snapshot', 'older snapshot versions are produced by _downgrade, the inverse of the format history documented in Environment.load (reference model; checked against the one old fixture the repository ships, version 4)']
@@ -67,6 +67,9 @@ def obligations(tier, kf):
     g = Ob('g_upgrade', {'VL': 1 if tier == 'quick' else 2}, 900,
            desc='snapshots of every older format version 4..17 (inverse format history) load to the recorded configuration')
     obs += [g, g.twin(), g.mutant('env_upgrade_v8_merged_into_v9')]
+    di = Ob('d_install_dirs_replay', {'VL': 1 if tier == 'quick' else 2}, 600,
+            desc='install_dirs() of a toolchain file under the three regeneration modes')
+    obs += [di, di.twin(), di.mutant('toolchain_install_dirs_lazy')]
     obs.append(Ob('v_version_gate', {}, 300, desc='every snapshot version 0..40'))
     obs.append(Ob('v_version_gate', {}, 120).twin())
     obs.append(Ob('v_version_gate', {}, 300).mutant('env_version_gate_off_by_one'))
